@@ -282,8 +282,10 @@ pub fn drive(args: &[String]) {
                     for &(lo, hi) in iss[f].iter() {
                         if !rng.chance(2, 3) { continue; }
                         let span = hi - lo;
-                        let a = lo + if span > 0 { rng.u128() % (span + 1) } else { 0 };
-                        let b = a + if hi > a { rng.u128() % (hi - a + 1) } else { 0 };
+                        // a uniformly chosen in lo..=hi, b in a..=hi (the span may be the whole 128-bit space)
+                        let pick = |r: u128, width: u128| if width == u128::MAX { r } else { r % (width + 1) };
+                        let a = lo + pick(rng.u128(), span);
+                        let b = a + pick(rng.u128(), hi - a);
                         // mostly covered; sometimes one past the issuer's block at the upper or at the lower end
                         v.push(match rng.below(9) {
                             0 => (a, hi.saturating_add(1).min(if f == 1 { u128::MAX } else { u32::MAX as u128 })),
